@@ -179,6 +179,9 @@ func returnsD(fn *ssa.Function, depth int) []*ssa.Return {
 				}
 			}
 			if h := tailHelper(r); h != nil && depth < 3 {
+				if tc := tailCallOf(r); tc != nil {
+					enteredBy[h] = tc // the helper's returns are judged in the context of this call
+				}
 				out = append(out, returnsD(h, depth+1)...)
 				return
 			}
@@ -457,12 +460,18 @@ func (w *World) errClass(v ssa.Value) string {
 			return "fmt.Errorf"
 		}
 		if inModule(callee) {
+			if cls, ok := w.helperErrClass(callee, 0); ok {
+				return cls // a helper the rules do not know: the class of the error it hands back
+			}
 			return "ctor:" + callee.Name()
 		}
 		return "call:" + callee.String()
 	case *ssa.Extract:
 		if c, ok := x.Tuple.(*ssa.Call); ok {
 			if callee := c.Call.StaticCallee(); callee != nil {
+				if cls, ok := w.helperErrClass(callee, x.Index); ok {
+					return cls
+				}
 				return "result:" + callee.Name()
 			}
 			if c.Call.IsInvoke() {
@@ -539,4 +548,48 @@ func rootedAt(v ssa.Value, root ssa.Value) bool {
 			return false
 		}
 	}
+}
+
+// helperErrClass: when every non-nil error a new helper returns (result idx) has one class, that class.
+func (w *World) helperErrClass(h *ssa.Function, idx int) (string, bool) {
+	if !isNewHelper(h) || h.Signature.Results().Len() <= idx || !isErrorType(h.Signature.Results().At(idx).Type()) {
+		return "", false
+	}
+	if w.errClsBusy == nil {
+		w.errClsBusy = map[*ssa.Function]bool{}
+	}
+	if w.errClsBusy[h] {
+		return "", false
+	}
+	w.errClsBusy[h] = true
+	defer delete(w.errClsBusy, h)
+	cls := ""
+	for _, r := range returnsD(h, 99) {
+		if idx >= len(r.Results) || isNilConst(r.Results[idx]) {
+			continue
+		}
+		c := w.errClass(r.Results[idx])
+		if c == "nil" {
+			continue
+		}
+		if cls != "" && c != cls {
+			return "", false
+		}
+		cls = c
+	}
+	return cls, cls != ""
+}
+
+func tailCallOf(r *ssa.Return) *ssa.Call {
+	for _, v := range r.Results {
+		switch x := v.(type) {
+		case *ssa.Call:
+			return x
+		case *ssa.Extract:
+			if c, ok := x.Tuple.(*ssa.Call); ok {
+				return c
+			}
+		}
+	}
+	return nil
 }
